@@ -418,6 +418,9 @@ def parse_seed(e, where, strs):
     m = re.fullmatch(r"(\w+)\.key\(\)\.as_ref\(\)", e)
     if m:
         return ["SKeyOf", m.group(1)]
+    m = re.fullmatch(r"&(\d+)u(?:8|16|32|64)\.to_le_bytes\(\)", e)
+    if m:
+        return ["SNum", int(m.group(1))]
     m = re.fullmatch(r"&(\w+)\.to_le_bytes\(\)", e)
     if m:
         return ["SArg", m.group(1)]
